@@ -5,13 +5,13 @@ mode=$1; id=$2; shift 2
 mkdir -p /tmp/seedverify
 if [ "$mode" = verify ]; then
   : > /tmp/seedverify/$id.r2.log
-  for k in 1 2 3; do
+  for k in 1 2 3 4; do
     [ -f ${SEED_ROOT:-/tmp/seedout2}/$id/$k/patch.diff ] || continue
     ./verify_seed.sh ${SEED_ROOT:-/tmp/seedout2}/$id/$k ${WT_PREFIX:-/tmp/wt2-}$id "$@" 2>&1 | grep "^RESULT\|attempt" >> /tmp/seedverify/$id.r2.log
   done
   echo "verified $id" >> /tmp/seedverify/$id.r2.log
 else
-  for k in 1 2 3; do
+  for k in 1 2 3 4; do
     r=$(grep "^RESULT ${SEED_ROOT:-/tmp/seedout2}/$id/$k " /tmp/seedverify/$id.r2.log | tail -1)
     if echo "$r" | grep -q "demo_with_change_exit=[1-9].*existing_tests_exit=0.*demo_pristine_exit=0"; then
       python3 import_seed.py $id $k "$r" ${SEED_ROOT:-/tmp/seedout2} $((k+${SEED_OFFSET:-3})) | tail -1
